@@ -1,6 +1,7 @@
 """Module-level ownership: objects of _tskitmodule.c that keep a pointer to another Python object hold a reference to it."""
 from __future__ import annotations
 
+import os
 import re
 
 from sa.expr import strip, walk, estr, callee, callname, calls, is_assign
@@ -155,6 +156,62 @@ def _value_evidence(fn, name):
                 and any(isinstance(a, ast.Name) and a.id == name for a in x.args):
             return True
     return bool(re.search(r"(left|right|start|end|stop|position|time|index|offset|length|span|samples|windows|nodes|num_|_id$|^id$|ploidy|precision)", name))
+
+
+# functions with value returns that can also fall off their end, each confirmed by reading to be unreachable in practice
+IMPLICIT_NONE_OK = {"load_tree_sequence",              # cli: the handler calls sys_exit(), which does not return
+                    "_process_schema_node",            # the meta-schema admits only the types the elif chain enumerates
+                    "impute_unknown_mutations_time",   # `method` was checked against allowed_methods == ["min"] just above
+                    }
+_NORETURN_CACHE = {}
+
+
+def _falls(stmts, noreturn):
+    """Can control reach the end of this statement list?  (syntax-directed; loops are assumed to terminate)"""
+    for s_ in stmts:
+        if not _falls1(s_, noreturn):
+            return False
+    return True
+
+
+def _falls1(s_, noreturn):
+    if isinstance(s_, (ast.Return, ast.Raise, ast.Continue, ast.Break)):
+        return False
+    if isinstance(s_, ast.Expr) and isinstance(s_.value, ast.Call) and ast.unparse(s_.value.func).split(".")[-1] in noreturn:
+        return False
+    if isinstance(s_, ast.If):
+        return _falls(s_.body, noreturn) or _falls(s_.orelse, noreturn)
+    if isinstance(s_, (ast.With, ast.AsyncWith)):
+        return _falls(s_.body, noreturn)
+    if isinstance(s_, ast.While):
+        return not (isinstance(s_.test, ast.Constant) and s_.test.value is True and not any(isinstance(x, ast.Break) for x in ast.walk(s_)))
+    if isinstance(s_, ast.Try):
+        if s_.finalbody and not _falls(s_.finalbody, noreturn):
+            return False
+        body = _falls(s_.body, noreturn) and (_falls(s_.orelse, noreturn) if s_.orelse else True)
+        return body or any(_falls(h.body, noreturn) for h in s_.handlers)
+    return True
+
+
+def _noreturn(m):
+    """Bare names of the package's functions that never return normally (every path raises), from every module next to `m`."""
+    d = os.path.dirname(m.path)
+    if d not in _NORETURN_CACHE:
+        names, returning = set(), set()
+        for f in sorted(os.listdir(d)):
+            if not f.endswith(".py"):
+                continue
+            try:
+                t = ast.parse(open(os.path.join(d, f)).read())
+            except (SyntaxError, OSError):
+                continue
+            for g in ast.walk(t):
+                if isinstance(g, ast.FunctionDef):
+                    never = not _falls(g.body, {"exit"}) and not any(isinstance(x, (ast.Return, ast.Yield, ast.YieldFrom)) for x in ast.walk(g)) \
+                        and not any(ast.unparse(dc).endswith("abstractmethod") for dc in g.decorator_list) and not g.name.startswith("__")
+                    (names if never else returning).add(g.name)
+        _NORETURN_CACHE[d] = (names - returning) | {"exit"}
+    return _NORETURN_CACHE[d]
 
 
 def py_function_lints(m, qn, fn):
@@ -336,10 +393,56 @@ def py_function_lints(m, qn, fn):
         if isinstance(x, (ast.ListComp, ast.SetComp)) and len(x.generators) == 1 and _trees_call(x.generators[0].iter) \
                 and isinstance(x.elt, ast.Name) and isinstance(x.generators[0].target, ast.Name) and x.elt.id == x.generators[0].target.id:
             out.append(("tree-reuse", x, "`%s` keeps references to the single Tree object that trees() updates in place" % ast.unparse(x)[:50]))
+    # 12. a function that returns values on some paths must not fall off its end on another (the caller then gets None where it
+    #     expects a tree sequence / table / array); typical after a handler or a branch loses its `raise`
+    noret = _noreturn(m)
+    for g in [fn] + [x for x in ast.walk(fn) if isinstance(x, ast.FunctionDef) and x is not fn]:
+        inner = set()
+        for h in ast.walk(g):
+            if h is not g and isinstance(h, (ast.FunctionDef, ast.Lambda)):
+                inner |= {id(y) for y in ast.walk(h)}
+        own = [x for x in ast.walk(g) if id(x) not in inner]
+        valued = [x for x in own if isinstance(x, ast.Return) and x.value is not None and not (isinstance(x.value, ast.Constant) and x.value.value is None)]
+        if valued and not any(isinstance(x, (ast.Yield, ast.YieldFrom)) for x in own) and g.name not in IMPLICIT_NONE_OK and _falls(g.body, noret):
+            out.append(("implicit-none", g, "`%s` returns a value on some paths but can also fall off its end and return None" % g.name))
+    # 11. np.argmax / np.argmin of a boolean mask is 0 when NO element is set: using it as an index needs an any() guard
+    def _masky(e):
+        return isinstance(e, ast.Compare) or (isinstance(e, ast.UnaryOp) and isinstance(e.op, ast.Invert)) \
+            or (isinstance(e, ast.Name) and re.search(r"mask|keep|is_|has_", e.id)) \
+            or (isinstance(e, ast.Attribute) and re.search(r"mask|keep|is_|has_", e.attr)) \
+            or (isinstance(e, ast.BinOp) and isinstance(e.op, (ast.BitAnd, ast.BitOr)) and (_masky(e.left) or _masky(e.right)))
+    for x in ast.walk(fn):
+        if isinstance(x, ast.Call) and ast.unparse(x.func) in ("np.argmax", "np.argmin", "numpy.argmax", "numpy.argmin") and x.args and _masky(x.args[0]):
+            arg = ast.unparse(x.args[0])
+            guarded = any(isinstance(y, ast.Call) and ((ast.unparse(y.func) in ("np.any", "np.all", "np.sum", "np.count_nonzero") and y.args
+                                                        and ast.unparse(y.args[0]) == arg)
+                                                       or (isinstance(y.func, ast.Attribute) and y.func.attr in ("any", "all", "sum")
+                                                           and ast.unparse(y.func.value).strip("()") == arg.strip("()")))
+                          for y in ast.walk(fn))
+            if not guarded:
+                out.append(("argmax-mask", x, "`%s` is 0 when no element of the mask is set, which is indistinguishable from \"the first "
+                            "element\"; no any() test of the same mask is in the function" % ast.unparse(x)[:50]))
     # 10. iteration order of a set is arbitrary: a SEQUENCE (list, tuple, array, joined string, yielded stream, appended list)
     #     must not be built by iterating one.  Order-free consumers (sum, any, all, set, membership) are fine.
-    def _is_set(e):
+    def _set_expr(e):
         return isinstance(e, (ast.Set, ast.SetComp)) or (isinstance(e, ast.Call) and ast.unparse(e.func) in ("set", "frozenset"))
+    set_names = set()
+    for nm_, vs_ in binds.items():
+        # a local that is a set at SOME definition and is then listed before any other definition intervenes: decided per use below
+        if any(v_ is not None and _set_expr(v_) for v_ in vs_):
+            set_names.add(nm_)
+    def _last_def_is_set(name, at):
+        last = None
+        for s_ in ast.walk(fn):
+            if isinstance(s_, ast.Assign) and s_.lineno < at.lineno and any(isinstance(t_, ast.Name) and t_.id == name for t_ in s_.targets):
+                a0, a1 = _arms(s_), _arms(at)
+                if any(k_ in a1 and {a0[k_], a1[k_]} == {"body", "orelse"} for k_ in a0):
+                    continue        # a definition in the opposite arm of an `if` never reaches this use
+                if last is None or s_.lineno > last.lineno:
+                    last = s_
+        return last is not None and _set_expr(last.value)
+    def _is_set(e):
+        return _set_expr(e) or (isinstance(e, ast.Name) and e.id in set_names and _last_def_is_set(e.id, e))
     if qn.split(".")[-1] not in SET_ORDER_OK:
         for x in ast.walk(fn):
             if isinstance(x, ast.Call) and ast.unparse(x.func) in ("list", "tuple", "np.array", "np.fromiter", "enumerate") and x.args and _is_set(x.args[0]):
@@ -354,6 +457,8 @@ def py_function_lints(m, qn, fn):
                                                                    and y.func.attr in ("append", "extend", "write", "add_row"))
                     for s_ in x.body for y in ast.walk(s_)):
                 out.append(("set-order", x, "the loop over `%s` emits items in the set's arbitrary order" % ast.unparse(x.iter)[:40]))
+    from . import lib_kind4
+    out += lib_kind4.function_lints(m, qn, fn)
     return out
 
 
@@ -363,7 +468,13 @@ def py_slips(ctx, py, mods, only=None, rule="PY-SLIPS"):
                    "map / zip / filter / reversed, ts.trees(), ts.variants() …) consumed by two loops or consumers, no `param or default` on a "
                    "None-defaulted parameter, no loop variable the body never reads, no np.where / np.nonzero tuple used as the index array, "
                    "no in-place write into the caller's argument or into a local bound only to an attribute (a view), no list of the "
-                   "single Tree object that trees() re-uses, no sequence built by iterating a set")
+                   "single Tree object that trees() re-uses, no sequence built by iterating a set (directly or through a local), no "
+                   "np.argmax / np.argmin of a boolean mask used without an any() test of that mask, no function that returns a value on "
+                   "some paths and falls off its end on another (a handler or branch that lost its raise), no defaulted parameter "
+                   "re-assigned without a test that the caller left it at its default, no numpy array of a public function indexed by "
+                   "a parameter whose lower bound is never tested, no multi-statement `try` with an `except: pass`, no zip() of a "
+                   "whole-table column with a per-item sequence or another table, no shortcut `return True` / un-lengthed zip in an "
+                   "equality method, no `<expr> or None`, no per-node array cut at a sample count, no fold whose step drops the running value")
     n = 0
     for mn in mods:
         m = py.mod(mn)
@@ -374,4 +485,61 @@ def py_slips(ctx, py, mods, only=None, rule="PY-SLIPS"):
             n += 1
             ctx.ob(rule, "%s.%s" % (mn, qn), not found, m.loc(found[0][1]) if found else m.loc(fn),
                    "clean" if not found else "%s: %s" % (found[0][0], found[0][2]))
+    return n
+
+
+def shared_instance_escape(ctx, py, rule="PY-SHARED-ESCAPE", mod="metadata", cls="MetadataSchema", factory="parse_metadata_schema"):
+    """Instances of `cls` are shared between every table and tree sequence that uses the same schema text (the factory is
+    lru_cache'd), so an accessor that hands out a reference into the instance's own dict - directly or through a SHALLOW
+    copy - lets one user's edit rewrite the validation rules of all the others."""
+    ctx.rule(rule, "%s instances are shared through the lru_cache on %s: no method returns the instance's own schema dict, or a "
+                   "shallow copy of it (copy.copy / dict(...) / .copy()); the only accepted form is copy.deepcopy" % (cls, factory))
+    m = py.mod(mod)
+    fac = m.funcs.get(factory)
+    cached = fac is not None and any("lru_cache" in ast.unparse(d) or "cache" == ast.unparse(d).split(".")[-1] for d in fac.decorator_list)
+    ctx.ob(rule, "%s|cached" % factory, fac is not None, m.loc(fac) if fac else m.rel,
+           "%s is %s" % (factory, "memoised: instances are shared" if cached else "not memoised (instances are still shared by tables that copy the reference)"))
+    init = m.funcs.get("%s.__init__" % cls)
+    if init is None:
+        ctx.need(rule, "%s.__init__" % cls, False, m.rel)
+        return 0
+    params = {a.arg for a in init.args.args} - {"self"}
+    # attributes that hold a dict: assigned from a constructor parameter or from a call that receives one
+    dict_attrs = set()
+    for x in ast.walk(init):
+        if isinstance(x, ast.Assign):
+            for t in x.targets:
+                if isinstance(t, ast.Attribute) and isinstance(t.value, ast.Name) and t.value.id == "self":
+                    names = {n.id for n in ast.walk(x.value) if isinstance(n, ast.Name)}
+                    fn_ = ast.unparse(x.value.func) if isinstance(x.value, ast.Call) else ""
+                    if (names & params) and not re.search(r"canonical_json|is_schema_trivial|Validator|^codec_cls$|str|repr|bool|len", fn_):
+                        dict_attrs.add(t.attr)
+    ctx.ob(rule, "%s|dict-attributes" % cls, len(dict_attrs) >= 2, m.loc(init), "attributes holding the caller's / the modified schema dict: %s" % sorted(dict_attrs))
+    n = 0
+    for qn, fn in m.funcs.items():
+        if not qn.startswith(cls + ".") or qn.endswith(".__init__"):
+            continue
+        for r in ast.walk(fn):
+            if not isinstance(r, ast.Return) or r.value is None:
+                continue
+            v = r.value
+            shallow = None
+            while True:
+                if isinstance(v, ast.Call) and ast.unparse(v.func) in ("copy.copy", "dict", "collections.OrderedDict", "OrderedDict") and v.args:
+                    shallow = ast.unparse(v.func); v = v.args[0]
+                elif isinstance(v, ast.Call) and isinstance(v.func, ast.Attribute) and v.func.attr == "copy" and not v.args:
+                    shallow = ".copy()"; v = v.func.value
+                else:
+                    break
+            if isinstance(v, ast.Attribute) and isinstance(v.value, ast.Name) and v.value.id == "self" and v.attr in dict_attrs:
+                n += 1
+                ctx.ob(rule, "%s|returns-%s" % (qn, v.attr), False, m.loc(r),
+                       "returns %s: a caller that edits %s rewrites the shared instance" % (
+                           "self.%s itself" % v.attr if not shallow else "a shallow copy (%s) of self.%s" % (shallow, v.attr),
+                           "it" if not shallow else "a nested entry (properties, required …)"))
+            elif isinstance(r.value, ast.Call) and ast.unparse(r.value.func) == "copy.deepcopy" and r.value.args \
+                    and isinstance(r.value.args[0], ast.Attribute) and r.value.args[0].attr in dict_attrs:
+                n += 1
+                ctx.ob(rule, "%s|returns-%s" % (qn, r.value.args[0].attr), True, m.loc(r), "returns a deep copy of self.%s" % r.value.args[0].attr)
+    ctx.ob(rule, "instances", n >= 1, m.rel, "%d accessor returns of the schema dict analysed" % n)
     return n
